@@ -290,4 +290,26 @@ ReaderRecoversCounts(im) ==
   /\ (~im.nosht => ReaderShstrndx(im) = StrIndex(im))
   /\ (im.nosht /\ NSeg(im) >= 65535 => TRUE)
   /\ (~im.nosht \/ NSeg(im) < 65535) => ReaderNumSegments(im) = NSeg(im)
+
+(* ---------------- machine-scoped meaning of aliased codes --------------- *)
+\* (definitions added for C01; View above is unchanged and keeps the wide, machine-blind alias sets)
+\* gABI ch.4 "ELF Identification", EI_OSABI: "64-255  Architecture-specific value range" - the meaning of such a code depends on
+\* e_machine.  The registry keeps all ELFOSABI_* names in one family; the owner of each architecture-specific name is
+\*   EM_ARM (40)       ELFOSABI_ARM_AEABI 64, ELFOSABI_ARM 97                      glibc elf.h ("ARM EABI" / "ARM")
+\*   EM_AMDGPU (224)   ELFOSABI_AMDGPU_HSA 64, _PAL 65, _MESA3D 66                 LLVM BinaryFormat/ELF.h ("AMDGPU OS ABI")
+\*   EM_TI_C6000 (140) ELFOSABI_C6000_ELFABI 64, ELFOSABI_C6000_LINUX 65           LLVM BinaryFormat/ELF.h / binutils elf/common.h
+\* (ELFOSABI_STANDALONE 255 and LLVM's range markers FIRST_ARCH/LAST_ARCH belong to no machine.)
+OsabiOverlay == << <<40, {"ELFOSABI_ARM_AEABI", "ELFOSABI_ARM"}>>,
+                   <<224, {"ELFOSABI_AMDGPU_HSA", "ELFOSABI_AMDGPU_PAL", "ELFOSABI_AMDGPU_MESA3D"}>>,
+                   <<140, {"ELFOSABI_C6000_ELFABI", "ELFOSABI_C6000_LINUX"}>> >>
+OsabiSpecific(machine) == UNION {OsabiOverlay[i][2] : i \in {j \in 1..Len(OsabiOverlay) : OsabiOverlay[j][1] = machine}}
+\* The scoping rule, the same for every aliased code: if the machine at hand owns one of the names of the code, the code means
+\* that (and only that) on this machine; if it owns none, nothing is narrowed (every registered name of the code stays admissible:
+\* a reader with one flat table is not faulted for a machine that has no say about the code).
+Scoped(all, own) == IF all \cap own # {} THEN all \cap own ELSE all
+OsabiNamesOf(machine, v) == Scoped(ByFam("ELFOSABI", "BASE", v), OsabiSpecific(machine))
+\* sh_type / p_type from LOPROC up: the processor's own name, not the generic range marker that shares its code (SHT_LOPROC = SHT_MIPS_LIBLIST,
+\* PT_LOPROC = PT_ARM_ARCHEXT = PT_AARCH64_ARCHEXT = PT_MIPS_REGINFO)
+ShtScopedNamesOf(machine, v) == Scoped(ShtNamesOf(machine, v), ByFam("SHT", MachFam(machine), v))
+PtScopedNamesOf(machine, v) == Scoped(PtNamesOf(machine, v), ByFam("PT", MachFam(machine), v))
 =============================================================================
